@@ -88,11 +88,61 @@ func c16Run(tp *core.Tape, e *core.Env) {
 			e.Violate("cross-process", "", "another process computes hash %q for the same text, this process %q", got, hA)
 		}
 	}
+	// a manager with a past computes the same hash for the same content: another configuration loaded
+	// before, a stop-scrape reason in force (extra configuration is not configuration content), a
+	// rejected reload in between
+	if tp.Bool("manager_with_history", 1, 2) {
+		m := prom.NewConfigManager()
+		var past []string
+		if tp.Bool("past_other_config", 1, 2) {
+			_ = m.ReloadFromRaw([]byte("global:\n  scrape_interval: 33s\nscrape_configs:\n- job_name: earlier\n  static_configs:\n  - targets: [\"a:1\"]\n"))
+			past = append(past, "other-config")
+		}
+		if tp.Bool("past_extra_config", 1, 2) {
+			_ = m.UpdateExtraConfig(prom.ExtraConfig{StopScrapeReason: "maintenance"})
+			past = append(past, "extra-config")
+		}
+		if tp.Bool("past_rejected_reload", 1, 3) {
+			_ = m.ReloadFromRaw([]byte("scrape_configs: [ {job_name: 1, nonsense: true} ]"))
+			past = append(past, "rejected-reload")
+		}
+		if err := m.ReloadFromRaw([]byte(textA)); err != nil {
+			e.Undecided("manager with a past rejects the configuration: %v", err)
+			return
+		}
+		e.Probe("manager_with_history")
+		if h := m.ConfigInfo().ConfigHash; h != hA {
+			e.Violate("depends-on-history", "past="+strings.Join(past, "+"), "a manager that went through %v computes hash %q for content a fresh manager hashes as %q", past, h, hA)
+		}
+	}
 	// a real sidecar reports it through its API
 	if tp.Bool("sidecar_reports", 1, 3) {
-		sc := sidecarsim.Start(sidecarsim.Options{Dir: dir})
+		opt := sidecarsim.Options{Dir: dir}
+		textS, hS := textA, hA
+		if tp.Bool("in_cluster_credentials_job", 1, 2) {
+			// a job with the in-cluster service account token, and a sidecar process that runs with
+			// --inject.kubernetes-sa-path (a process-local flag: it must not change what the content hashes to)
+			t3 := cfggen.Clone(tree).(*cfggen.Map)
+			jl := t3.Get("scrape_configs").(*cfggen.List)
+			jl.Items = append(jl.Items, cfggen.M(
+				cfggen.KV{K: "job_name", V: cfggen.F("in-cluster")},
+				cfggen.KV{K: "bearer_token_file", V: cfggen.F("/var/run/secrets/kubernetes.io/serviceaccount/token")},
+				cfggen.KV{K: "static_configs", V: cfggen.L(false, cfggen.M(cfggen.KV{K: "targets", V: cfggen.L(false, cfggen.F("kube-state:8080"))}))}))
+			textS = cfggen.Render(t3, stA)
+			var err error
+			if hS, err = hashOf(textS); err != nil {
+				e.Undecided("configuration with the in-cluster job rejected: %v\n%s", err, textS)
+				return
+			}
+			if tp.Bool("sidecar_sa_path_flag", 2, 3) {
+				opt.SAPath = "/custom/serviceaccount"
+				e.Probe("sidecar_with_sa_path_flag")
+			}
+		}
+		sc := sidecarsim.Start(opt)
+		defer sc.Stop()
 		if sc.LoadErr == nil {
-			if err := sc.PushConfig(textA); err != nil {
+			if err := sc.PushConfig(textS); err != nil {
 				e.Undecided("sidecar rejected the configuration: %v", err)
 				return
 			}
@@ -102,8 +152,8 @@ func c16Run(tp *core.Tape, e *core.Env) {
 				return
 			}
 			e.Probe("sidecar_reported_hash")
-			if rt.ConfigHash != hA {
-				e.Violate("sidecar-differs", "", "sidecar reports hash %q for the configuration the coordinator hashes as %q", rt.ConfigHash, hA)
+			if rt.ConfigHash != hS {
+				e.Violate("sidecar-differs", "", "sidecar reports hash %q for the configuration the coordinator hashes as %q", rt.ConfigHash, hS)
 			}
 		}
 	}
